@@ -334,13 +334,19 @@ func checkC03(w *World, r *Report) {
 // iterations; a closure that outlives the iteration and reads through its
 // address sees the last endpoint's data (its allow-list) on every path.
 func c03LoopVarEscape(w *World, r *Report) {
+	ruleLoopVarEscape(w, r, "R03.7", func(path string) bool { return path == modPath+"/internal/server" }, "every endpoint's handler then reads the LAST endpoint's data")
+}
+
+// ruleLoopVarEscape: no closure or callee that outlives a loop iteration keeps
+// the address of a variable the loop re-assigns (shared by all iterations).
+func ruleLoopVarEscape(w *World, r *Report, rule string, inScope func(pkgPath string) bool, consequence string) {
 	n := 0
 	for fn := range allModuleFuncs(w, w.SSA()) {
 		f0 := fn
 		for f0.Parent() != nil {
 			f0 = f0.Parent()
 		}
-		if f0.Pkg == nil || f0.Pkg.Pkg.Path() != modPath+"/internal/server" {
+		if f0.Pkg == nil || !inScope(f0.Pkg.Pkg.Path()) {
 			continue
 		}
 		allInstrs(fn, func(in ssa.Instruction) {
@@ -369,7 +375,7 @@ func c03LoopVarEscape(w *World, r *Report) {
 				case *ssa.MakeClosure:
 					// captured directly by a closure created in the loop
 					if escapes(x) {
-						bad = fmt.Sprintf("%s: a closure that outlives the iteration captures the loop variable %s", w.Pos(x.Pos()), al.Comment)
+						bad = fmt.Sprintf("%s: a closure that outlives the iteration captures the variable %s, which the loop re-assigns: %s", w.Pos(x.Pos()), al.Comment, consequence)
 					}
 				case ssa.CallInstruction:
 					cc := x.Common()
@@ -382,16 +388,16 @@ func c03LoopVarEscape(w *World, r *Report) {
 							continue
 						}
 						if paramCapturedByEscapingClosure(callee, callee.Params[i]) {
-							bad = fmt.Sprintf("%s: the address of loop variable %s is passed to %s, which keeps it in a closure that is used after the iteration ended: every endpoint's handler then reads the LAST endpoint's data", w.Pos(x.Pos()), al.Comment, ssaFuncKey(callee))
+							bad = fmt.Sprintf("%s: the address of loop variable %s is passed to %s, which keeps it in a closure that is used after the iteration ended: %s", w.Pos(x.Pos()), al.Comment, ssaFuncKey(callee), consequence)
 						}
 					}
 				}
 			}
-			r.Check(bad == "", "R03.7", key, w.Pos(al.Pos()), "the loop variable's address does not outlive its iteration", bad)
+			r.Check(bad == "", rule, key, w.Pos(al.Pos()), "the loop variable's address does not outlive its iteration", bad)
 		})
 	}
 	if n == 0 {
-		r.Hold("R03.7", "loopvars:server", "-", "no address-taken loop variable in package server")
+		r.Hold(rule, "loopvars:scope", "-", "no address-taken variable re-assigned in a loop in the packages in scope")
 	}
 }
 
@@ -628,59 +634,206 @@ func c03Dial(w *World, r *Report, chIface *types.Interface) {
 	}
 }
 
+// muxerOrigins classifies where a *MultistreamMuxer value comes from:
+// "fresh" (a NewMultistreamMuxer call), "global", "field:<T.f>", "unknown".
+func muxerOrigins(w *World, v ssa.Value, fn *ssa.Function, depth int, seen map[ssa.Value]bool) []string {
+	var out []string
+	if depth > 4 {
+		return []string{"unknown"}
+	}
+	for _, root := range provenance(v, provOpts{}) {
+		if seen[root] {
+			continue
+		}
+		seen[root] = true
+		switch x := root.(type) {
+		case *ssa.Call:
+			f := sCallee(x)
+			if f != nil && f.Name() == "NewMultistreamMuxer" {
+				out = append(out, "fresh")
+				continue
+			}
+			callee := x.Call.StaticCallee()
+			if callee != nil && inModule(callee) && len(callee.Blocks) > 0 {
+				for _, b := range callee.Blocks {
+					if ret, ok := b.Instrs[len(b.Instrs)-1].(*ssa.Return); ok {
+						for _, res := range ret.Results {
+							if types.Identical(res.Type(), v.Type()) {
+								out = append(out, muxerOrigins(w, res, callee, depth+1, seen)...)
+							}
+						}
+					}
+				}
+				continue
+			}
+			out = append(out, "unknown")
+		case *ssa.Parameter:
+			// every static call site in the module supplies the argument
+			idx := -1
+			for i, p := range fn.Params {
+				if p == x {
+					idx = i
+				}
+			}
+			found := false
+			for caller := range allModuleFuncs(w, w.SSA()) {
+				for _, c := range callsIn(caller) {
+					if c.Common().StaticCallee() == fn && idx >= 0 && idx < len(c.Common().Args) {
+						found = true
+						out = append(out, muxerOrigins(w, c.Common().Args[idx], caller, depth+1, seen)...)
+					}
+				}
+			}
+			if !found {
+				out = append(out, "unknown")
+			}
+		case *ssa.UnOp:
+			if g, ok := x.X.(*ssa.Global); ok {
+				out = append(out, "global:"+g.Name())
+				continue
+			}
+			if fa := asFieldAddr(x.X); fa != nil {
+				fv := fieldVarOf(fa)
+				name := "?"
+				if fv != nil {
+					name = fv.Name()
+				}
+				// per-handler field: every store to it anywhere in the module must be fresh
+				okf := fv != nil
+				nst := 0
+				for f2 := range allModuleFuncs(w, w.SSA()) {
+					allInstrs(f2, func(in ssa.Instruction) {
+						st, ok := in.(*ssa.Store)
+						if !ok {
+							return
+						}
+						if fa2 := asFieldAddr(st.Addr); fa2 != nil && fieldVarOf(fa2) == fv {
+							nst++
+							for _, o := range muxerOrigins(w, st.Val, f2, depth+1, seen) {
+								if o != "fresh" {
+									okf = false
+								}
+							}
+						}
+					})
+				}
+				if okf && nst > 0 {
+					out = append(out, "field:"+name)
+				} else {
+					out = append(out, "unknown")
+				}
+				continue
+			}
+			out = append(out, "unknown")
+		case *ssa.Global:
+			out = append(out, "global:"+x.Name())
+		default:
+			out = append(out, "unknown")
+		}
+	}
+	if len(out) == 0 {
+		out = []string{"unknown"}
+	}
+	return out
+}
+
 func c03Register(w *World, r *Report) {
-	fn := w.SSAFunc(w.Method("internal/server", "ConnectionHandler", "multiplexToUpstream"))
-	key := "method:(*server.ConnectionHandler).multiplexToUpstream|register"
-	if fn == nil {
+	key := "pkg:server|register"
+	chNamed := w.Named("internal/server", "ConnectionHandler")
+	if chNamed == nil {
 		r.Undecided("R03.6", key, "-", "anchor unresolved")
 		return
 	}
-	chField := fieldOf(w.Named("internal/server", "ConnectionHandler"), "channels")
-	n := 0
+	chField := fieldOf(chNamed, "channels")
+	n, nneg := 0, 0
 	bad := ""
-	for _, c := range callsIn(fn) {
-		f := sCallee(c)
-		if f == nil || f.Name() != "AddHandler" || f.Pkg() == nil || !strings.HasSuffix(f.Pkg().Path(), "go-multistream") {
+	pos := "-"
+	isMux := func(f *types.Func) bool {
+		return f != nil && f.Pkg() != nil && strings.HasSuffix(f.Pkg().Path(), "go-multistream") && recvNamed(f) != nil && recvNamed(f).Obj().Name() == "MultistreamMuxer"
+	}
+	for fn := range allModuleFuncs(w, w.SSA()) {
+		f0 := fn
+		for f0.Parent() != nil {
+			f0 = f0.Parent()
+		}
+		if f0.Pkg == nil || f0.Pkg.Pkg.Path() != modPath+"/internal/server" {
 			continue
 		}
-		n++
-		args := c.Common().Args
-		proto := args[len(args)-2]
-		add, ok := proto.(*ssa.BinOp)
-		okp := false
-		if ok && add.Op == token.ADD {
-			if cst, ok := add.X.(*ssa.Const); ok && cst.Value != nil && constant.StringVal(cst.Value) == "/" {
-				if nc, ok := add.Y.(*ssa.Call); ok && nc.Call.IsInvoke() && nc.Call.Method.Name() == "Name" {
-					// receiver element of the handler's own list
-					for _, root := range provenance(nc.Call.Value, provOpts{}) {
-						if u, ok := root.(*ssa.UnOp); ok {
-							if ia, ok := u.X.(*ssa.IndexAddr); ok && chField != nil && isLoadOfField(ia.X, chField) {
-								okp = true
+		for _, c := range callsIn(fn) {
+			f := sCallee(c)
+			if !isMux(f) {
+				continue
+			}
+			args := c.Common().Args
+			switch f.Name() {
+			case "AddHandler", "AddHandlerWithFunc", "Handle", "Negotiate", "NegotiateLazy":
+			default:
+				continue
+			}
+			// the muxer must be private to the stream / the physical connection: a shared one keeps the
+			// registrations of every endpoint's connection
+			for _, o := range muxerOrigins(w, args[0], fn, 0, map[ssa.Value]bool{}) {
+				if strings.HasPrefix(o, "global:") {
+					bad = fmt.Sprintf("%s: %s uses the package-level muxer %s: it accumulates the channel names (and handlers) of every endpoint's connections, so a name outside this endpoint's allow-list is served by another endpoint's handler", w.Pos(c.Pos()), f.Name(), strings.TrimPrefix(o, "global:"))
+				} else if o == "unknown" {
+					bad = fmt.Sprintf("%s: cannot establish that the muxer used by %s is created for this stream/connection", w.Pos(c.Pos()), f.Name())
+				}
+			}
+			if f.Name() != "AddHandler" && f.Name() != "AddHandlerWithFunc" {
+				nneg++
+				if pos == "-" {
+					pos = w.Pos(c.Pos())
+				}
+				continue
+			}
+			n++
+			proto := args[len(args)-2]
+			if f.Name() == "AddHandlerWithFunc" {
+				proto = args[1]
+			}
+			add, ok := proto.(*ssa.BinOp)
+			okp := false
+			if ok && add.Op == token.ADD {
+				if cst, ok := add.X.(*ssa.Const); ok && cst.Value != nil && constant.StringVal(cst.Value) == "/" {
+					if nc, ok := add.Y.(*ssa.Call); ok && nc.Call.IsInvoke() && nc.Call.Method.Name() == "Name" {
+						// receiver element of the handler's own list
+						for _, root := range provenance(nc.Call.Value, provOpts{}) {
+							if u, ok := root.(*ssa.UnOp); ok {
+								if ia, ok := u.X.(*ssa.IndexAddr); ok && chField != nil {
+									for _, lr := range provenance(ia.X, provOpts{}) {
+										if isLoadOfField(lr, chField) {
+											okp = true
+										}
+									}
+								}
 							}
 						}
 					}
 				}
 			}
-		}
-		if !okp {
-			bad = fmt.Sprintf("%s: a handler is registered under a protocol id that is not \"/\"+Name() of a channel of the session's own list", w.Pos(c.Pos()))
-		}
-		// handler must be the bound muxHandler
-		h := args[len(args)-1]
-		okh := false
-		for _, root := range provenance(h, provOpts{}) {
-			if mc, ok := root.(*ssa.MakeClosure); ok {
-				if bf, ok := mc.Fn.(*ssa.Function); ok && strings.Contains(bf.Name(), "muxHandler") {
-					okh = true
+			if !okp {
+				bad = fmt.Sprintf("%s: a handler is registered under a protocol id that is not \"/\"+Name() of a channel of the session's own list", w.Pos(c.Pos()))
+			}
+			// handler must be the bound muxHandler
+			h := args[len(args)-1]
+			okh := false
+			for _, root := range provenance(h, provOpts{}) {
+				if mc, ok := root.(*ssa.MakeClosure); ok {
+					if bf, ok := mc.Fn.(*ssa.Function); ok && strings.Contains(bf.Name(), "muxHandler") {
+						okh = true
+					}
 				}
 			}
-		}
-		if !okh {
-			bad = fmt.Sprintf("%s: registered handler is not the guarded muxHandler", w.Pos(c.Pos()))
+			if !okh {
+				bad = fmt.Sprintf("%s: registered handler is not the guarded muxHandler", w.Pos(c.Pos()))
+			}
 		}
 	}
 	if n == 0 {
 		bad = "no protocol handler is registered"
 	}
-	r.Check(bad == "", "R03.6", key, w.Pos(fn.Pos()), fmt.Sprintf("%d registration(s): \"/\"+Name() over the session's own channel list, handled by muxHandler", n), bad)
+	if nneg == 0 && bad == "" {
+		bad = "no protocol negotiation (Handle/Negotiate) found in package server"
+	}
+	r.Check(bad == "", "R03.6", key, pos, fmt.Sprintf("%d registration(s) \"/\"+Name() over the session's own channel list handled by muxHandler, %d negotiation(s), all on a muxer created for the stream/connection", n, nneg), bad)
 }
